@@ -23,7 +23,8 @@ class CaseResult:
 
 def run_cases(module: str, cases: list[Any], *, shards: int = 16, env_name: str = "CASE_FILE",
               extra_env: dict[str, str] | None = None, cfg_text: str | None = None,
-              timeout: float = 3600, min_per_shard: int = 50, xmx: str | None = "3g") -> CaseResult:
+              timeout: float = 3600, min_per_shard: int = 50, xmx: str | None = "3g", count_ends=None) -> CaseResult:
+    """count_ends: for judges without a single end state (MachineCases): function case -> number of "end" records expected."""
     res = CaseResult()
     if not cases:
         return res
@@ -48,7 +49,13 @@ def run_cases(module: str, cases: list[Any], *, shards: int = 16, env_name: str 
         a, b = bounds[j]
         if r.violated:
             raise tlc.TLCMachineryError(f"{module}: judge violated {r.violated}\n" + "\n".join(r.out.splitlines()[-30:]))
-        done = [x for x in r.records if len(x) > 2 and x[1] == "done"]
+        if count_ends is not None:
+            want = sum(count_ends(c) for c in cases[a:b])
+            got = len({(x[2], x[3]) for x in r.records if len(x) > 3 and x[1] == "end"})
+            done = [("VERIF", "done", b - a)] if got == want else [("VERIF", "ends", got, want)]
+            res.ends = getattr(res, "ends", []) + [(a + x[2] - 1, x[3], x[4], x[5]) for x in r.records if len(x) > 5 and x[1] == "end"]
+        else:
+            done = [x for x in r.records if len(x) > 2 and x[1] == "done"]
         if not done or done[0][2] != b - a:
             raise tlc.TLCMachineryError(f"{module}: shard {j} judged {done} of {b-a} cases\n" + "\n".join(r.out.splitlines()[-30:]))
         seen = set()
